@@ -50,6 +50,16 @@ CLAIMS = {
              "(residual); logging and post_message assumed not to raise; call graph over-approximates by method name.",
         technique="VC generation from the Python AST (pyvc) + z3/cvc5; ghost response channel; call-graph frame analysis",
         design="3/C01"),
+    "C17": dict(
+        text="Effect contract of the whole package, regenerated from the source on every run: every call of a "
+             "code-execution, process, deserialisation, file-modifying or network primitive is either of an allowed "
+             "shape (literal argument vector for pip, <root>/fortls_debug.log, read-only open, fixed URL) or a failed "
+             "obligation with the call path from the server entry points; dynamic dispatch constructs must be on the "
+             "reviewed list. A native run under sys.addaudithook on a hostile workspace is the bounded stand-in.",
+        note="Sink list is syntactic (stated in contracts/c17.py); method calls resolved by name; json5 and stdlib "
+             "internals trusted; no taint tracking: execution sinks are allowed only with literal arguments.",
+        technique="effect/frame obligations over the whole-package call graph (pyvc mode E)",
+        design="3/C17"),
 }
 
 NOT_APPLICABLE = {
